@@ -160,12 +160,19 @@ func (c *Ctx) CloseMinimums() {
 	c.closed = true
 	for _, r := range c.ruleOrd {
 		n := c.Count(r)
+		if c.seen[r+"|UNRESOLVED:min-instances"] {
+			continue
+		}
 		if n < c.mins[r] {
 			c.Ob(r, "UNRESOLVED:min-instances", token.NoPos, false,
 				fmt.Sprintf("rule matched %d instances, expected at least %d (anchor not resolved or construct removed)", n, c.mins[r]))
 		}
 	}
 }
+
+// Reopen allows further rules after CloseMinimums (the thorough tier adds its
+// own rules to an already evaluated context).
+func (c *Ctx) Reopen() { c.closed = false }
 
 // Finish prints diagnostics, writes evidence and returns the exit code.
 func (c *Ctx) Finish() int {
@@ -216,13 +223,13 @@ func (c *Ctx) Finish() int {
 	}
 	c.writeEvidence(viol)
 	if len(viol) > 0 {
-		vp := filepath.Join(c.VerifDir, "evidence", c.Prop+".violations.json")
+		vp := filepath.Join(c.evidenceDir(), c.Prop+".violations.json")
 		b, _ := json.MarshalIndent(viol, "", " ")
 		_ = os.WriteFile(vp, b, 0o644)
 		fmt.Printf("VIOLATION property=%s replay=%s\n", c.Prop, vp)
 		return 1
 	}
-	_ = os.Remove(filepath.Join(c.VerifDir, "evidence", c.Prop+".violations.json"))
+	_ = os.Remove(filepath.Join(c.evidenceDir(), c.Prop+".violations.json"))
 	if !c.Quiet {
 		fmt.Printf("OK property=%s tier=%s obligations=%d rules=%d wall=%.1fs\n", c.Prop, c.Tier, len(c.obs), len(c.ruleOrd), time.Since(c.start).Seconds())
 	}
@@ -325,8 +332,18 @@ func (c *Ctx) writeEvidence(viol []*Obligation) {
 		ev["assumptions"] = []string{}
 	}
 	b, _ := json.MarshalIndent(ev, "", " ")
-	_ = os.MkdirAll(filepath.Join(c.VerifDir, "evidence"), 0o755)
-	_ = os.WriteFile(filepath.Join(c.VerifDir, "evidence", c.Prop+".json"), b, 0o644)
+	_ = os.MkdirAll(c.evidenceDir(), 0o755)
+	_ = os.WriteFile(filepath.Join(c.evidenceDir(), c.Prop+".json"), b, 0o644)
+}
+
+// evidenceDir is <verif>/evidence unless GOBLCHECK_EVIDENCE_DIR redirects it
+// (used by the tools that run the checks against a modified scratch state of
+// /repo, so that the committed evidence keeps describing /repo itself).
+func (c *Ctx) evidenceDir() string {
+	if d := os.Getenv("GOBLCHECK_EVIDENCE_DIR"); d != "" {
+		return d
+	}
+	return filepath.Join(c.VerifDir, "evidence")
 }
 
 // Dump prints all obligations.
